@@ -157,9 +157,92 @@ def run(ctx):
                                           detail=dict(status=st, joined=repr(val)[:300]), sig=dict(clause='not-compositional'))
     ctx.evaluations += npairs
     ctx.log('compositionality: %d joined conversions compared' % npairs)
+    run_documents(ctx)
     ctx.exhaustive = True
     ctx.assumptions += ['fill_text is not part of C03 (covered by C07 for totality only)',
                         'the symbol/format/accent/specials tables are extracted from the text database at check time']
+
+
+DOC_SHARDS = [
+    dict(macros=['textbf', 'frac'], envs=[], specials=['~'], argless=['alpha']),
+    dict(macros=['emph', "'"], envs=['itemize'], specials=['--'], argless=[]),
+    dict(macros=['sqrt', 'item'], envs=['itemize'], specials=[], argless=['beta']),
+    dict(macros=['text', 'c'], envs=['equation'], specials=['``'], argless=['i']),
+    dict(macros=['textit'], envs=['enumerate', 'equation'], specials=['---', '&'], argless=['alpha']),
+]
+DOC_FEATURES = ['group', 'math', 'display', 'comment', 'par', 'space', 'commenteof', 'argtoken', 'bracket']
+DOC_MC = """---- MODULE MC_DocL2T ----
+EXTENDS DocL2T
+WMacrosDef == %(wmacros)s
+WEnvsDef == %(wenvs)s
+WSpecialsDef == %(wspecials)s
+ArglessDef == %(argless)s
+St0Def == %(st0)s
+OptSetsDef == << %(opts)s >>
+%(ctxdefs)s
+%(textdefs)s
+====
+"""
+DOC_CFG = """CONSTANTS
+  MaxActs = %(maxacts)d
+  WMacros <- WMacrosDef
+  WEnvs <- WEnvsDef
+  WSpecials <- WSpecialsDef
+  ArglessMacros <- ArglessDef
+  Faults = {}
+  Features = {%(features)s}
+  DiscardMacros = {}
+  St0 <- St0Def
+  OptSets <- OptSetsDef
+%(ctxconst)s
+  MacroText <- MacroTextDef
+  EnvText <- EnvTextDef
+  SpecialsText <- SpecialsTextDef
+  NfcTab <- NfcTabDef
+  Pols = {%(pols)s}
+SPECIFICATION Spec
+INVARIANT WellFormedAccepted
+INVARIANT MarkersSurvive
+INVARIANT Emit
+CHECK_DEADLOCK FALSE
+"""
+
+
+def doc_jobs(maxacts, features=DOC_FEATURES, shards=None):
+    from . import docwriter
+    d = contexts.describe('default')
+    jobs = []
+    for sh in (shards or DOC_SHARDS):
+        macs = set(sh['macros']) | set(sh['argless'])
+        envs = set(sh['envs'])
+        wm = docwriter._set(['<<%s, %s>>' % (tla_seq(m), contexts._sig_tla(d['macros'][m])) for m in sh['macros']])
+        we = docwriter._set(['<<%s, %s, "%s">>' % (tla_seq(e), contexts._sig_tla(d['envs'][e]['args']), d['envs'][e]['body'])
+                             for e in sh['envs']])
+        st = pstate.make(ctx='default', tol=False)
+        opts = ', '.join('[keep_comments |-> %s, keep_braced_groups |-> %s, math_mode |-> "%s"]' % (
+            'TRUE' if o['keep_comments'] else 'FALSE', 'TRUE' if o['keep_braced_groups'] else 'FALSE', o['math_mode']) for o in OPTS)
+        specials = pstate.specials_of('default')
+        text = DOC_MC % dict(wmacros=wm, wenvs=we, wspecials=docwriter._set([tla_seq(s) for s in sh['specials']]),
+                             argless=docwriter._set([tla_seq(z) for z in sh['argless']]),
+                             st0=pstate.tla_record(st).replace('AlphaDefault', 'L!AlphaDefault'), opts=opts,
+                             ctxdefs=contexts.tla_defs('default', only=(macs, envs)),
+                             textdefs=l2tspec.tla_defs(macs, envs, [s for s in specials if s != '\n\n'],
+                                                       sorted({32, 305, 567} | set(range(48, 58)) | set(range(97, 123)))))
+        cfg = DOC_CFG % dict(maxacts=maxacts, features=', '.join('"%s"' % f for f in features),
+                             ctxconst=contexts.cfg_constants('default').rstrip('\n'), pols=', '.join('"%s"' % p for p in POLS))
+        jobs.append(dict(main='MC_DocL2T', mc=text, cfg=cfg, tlc_kw=dict(timeout=6000, xmx='4g')))
+    return jobs
+
+
+def run_documents(ctx):
+    quick = ctx.tier == 'quick'
+    n = 3 if quick else 4
+    m = common.run_shards(ctx, ('harness.c03', 'TextConsumer'), doc_jobs(n), what='DocL2T written documents <= %d actions' % n)
+    ctx.add_merged(m)
+    ctx.log('written documents (<= %d actions, %d construct sets): %d documents, %d renderings compared' % (
+        n, len(DOC_SHARDS), m['n'], m['counters'].get('renders', 0)))
+    ctx.notes['documents'] = ('DocWriter x reference parser x L2T: every derivation of <= %d opening actions over %d construct '
+                              'sets of the default databases, rendered under 4 policies x 16 option sets, exact' % (n, len(DOC_SHARDS)))
 
 
 def replay(case):
